@@ -388,6 +388,7 @@ def vary_names(decls, every=3, upper=True, raw=True, vis=True, hostile=True):
         for j, f in enumerate(d["fields"]):
             if f["kind"] == "uarb":
                 f.setdefault("tyspell", ["", "arbitrary_int::", "::arbitrary_int::"][(k + j) % 3])
+            f.setdefault("fvis", ["", "pub ", "", "pub(crate) ", "", "pub(self) ", ""][(k + 2 * j) % 7])
             if f["kind"] == "optenum":
                 f.setdefault("optspell", ["", "::core::option::"][(k + j) % 2])
         # the struct itself named like a trait the macro derives / implements by name (a struct named `Default` or `Result`
